@@ -17,3 +17,9 @@ add("C02", "exploration", "property-based testing: round trip (build well-formed
 add("C06", "exploration", "metamorphic property-based testing + exhaustive enumeration of short token sequences with every single cut",
     "Single-call output is compared with bytewise, every-single-cut and random splittings: Hypothesis streams (C01 generator and 7E/7D-dense noise) and ALL token sequences up to length 5/6 over a 10-token alphabet x 4 configurations x every single cut. Exhaustive for that token space only.",
     "Metamorphic relation only (no absolute oracle); the single-call run is the reference.", "DESIGN.md §4 C06")
+add("C04", "exploration", "property-based testing: mutation of generated readouts against an independent CRC-16/ARC + identification oracle",
+    "Generated IEC 62056-21 readouts (plus constructed CRC=0x0000 readouts) are mutated (bit flips, checksum replaced by 0000 / +-1 / swapped / drawn / case variants, checksum removed, identification damaged), delivered directly and via the reader with random splittings, and judged by a bit-serial CRC and the harness's identification pattern: valid => ident ok and checksum == CRC; wrong checksum => not valid; untouched => valid; payload exact.",
+    "Checksum claim only when the last line is '!' + exactly 4 hex digits; is_valid raising is left to C14; permissive identification pattern.", "DESIGN.md §4 C04")
+add("C05", "exploration", "property-based testing: round trip of long generated readout streams over adversarial chunkings",
+    "Streams of up to 200 readouts / hundreds of KiB, expanded deterministically from drawn parameters, fed in single, bytewise, random and fixed-size chunkings (1..64 KiB, offsets, readout-length+-k) - the history quantifier the unit tests lack; output must equal the sent readouts, all valid.",
+    "Readouts < 8000 bytes with lines < 200 bytes; data from the harness grammar (no '/' or '!' inside lines).", "DESIGN.md §4 C05")
